@@ -64,6 +64,14 @@ var Fragmented = &cu.Spec{
 	MarkerOnlyLast: true,
 	Stateful:       true,
 	MaxFrameBytes:  1 << 20,
+	FrameOfSize: func(n int) cu.Frame {
+		b := make([]byte, n)
+		for i := range b {
+			b[i] = byte(i*13 + 1)
+		}
+		copy(b, []byte{0x00})
+		return cu.Frame{b}
+	},
 	RetainBound:    1<<20 + 65536,
 	PickMax: func(r *rand.Rand) int {
 		if r.IntN(8) == 0 {
